@@ -89,6 +89,12 @@ def gen_C01(r):
 
 def gen_C02(r):
     scn = _base(r, n=(3, 9), kinds=KW_ALL, p_par=0.5, mon=False, p_async=(0.0,))
+    if r.random() < 0.25:
+        # commit flags and versions recorded at several commits (simple shapes; C05 owns the hard ones)
+        scn["disable_git"] = False
+        scn["history"] = _git_history(r, scn["tasks"], r.randint(3, 8), where_p=0.0, flags_p=0.5,
+                                      jobs_choices=(None, None, 2))
+        return scn
     # keep git simple here (none / disabled / linear); DAG-shaped histories belong to C05
     for _ in range(r.choice([1, 2, 3, 4])):
         scn["history"].append(_run_op(r, scn["tasks"], jobs_choices=(None, None, 2, 4), again_p=0.25,
@@ -350,13 +356,20 @@ def gen_C08(r):
     ops = []
     n = r.randint(2, 7)
     have_arch = False
+    burst = r.random() < 0.4      # several invocations within the same simulated second(s)
     for k in range(n):
         c = r.random()
         gap = r.choice([0.0, 0.0, 0.0, 0.2, 0.7, 1.0, 2.0, 4.0, -1.0, -5.0, -3600.0, 86400.0])
-        if c < 0.65 or k == 0:
+        if burst:
+            gap = r.choice([0.0, 0.0, 0.0, 0.1, 0.5, -1.0])
+        if c < 0.65 or k == 0 or burst:
             op = _run_op(r, scn["tasks"], jobs_choices=(None, None, 2, 3), again_p=0.5,
-                         fail_p=r.choice([0.0, 0.2, 0.4]), files=True, gap=gap,
-                         stop_early_p=0.1)
+                         fail_p=r.choice([0.0, 0.2, 0.4, 0.6]) if not burst else r.choice([0.3, 0.6, 0.8]),
+                         files=True, gap=gap, stop_early_p=0.1)
+            if burst:
+                for lst in op["scripts"].values():
+                    for sc in lst:
+                        sc["steps"] = [st_ for st_ in sc["steps"] if st_[0] != "adv"]
             f = r.random()
             if f < 0.15:
                 op["signal"] = {"sig": r.choice(["INT", "TERM"]), "cp": int(10 ** r.uniform(1.5, 3.6))}
